@@ -1,4 +1,8 @@
-(* MiniPy.v -- a deep embedding of the fragment of Python that dsw/operation.py is written in, with an executable
+(* MiniPyF.v -- MiniPy.v extended with what dsw/biofilter.py needs: binary64 floats (Coq's primitive floats), None tests,
+   substring tests, str.count / replace / upper.  A separate copy, so that the float-free MiniPy.v (and every theorem about
+   dsw/operation.py) does not mention the primitive float type.  Everything below the next paragraph is MiniPy.v's text.
+
+   MiniPy.v -- a deep embedding of the fragment of Python that dsw/operation.py is written in, with an executable
    big-step interpreter.  harness/translate.py turns the CURRENT source text of a function into a term of type
    [fundef] by a purely syntactic walk over Python's ast (one constructor per ast node, nothing is interpreted by
    the translator); the meaning of the term is what [run_fun] computes.  coq/Generated/*Proofs.v prove, for all
@@ -10,7 +14,9 @@
    [Stuck] is returned for anything outside the modelled semantics (never for a Python exception), so that no theorem
    can be true through an unmodelled corner.  Executable definitions only, no proofs. *)
 From Coq Require Export String.
+From Coq Require Import PrimFloat Uint63.
 From DSW Require Export Py.
+From DSW Require Import Thresholds.
 Open Scope Z_scope.
 
 (* ---- values -------------------------------------------------------------------------------------------------- *)
@@ -22,8 +28,7 @@ Inductive val :=
 | VTuple (l : list val)
 | VNone
 | VOpaque                      (* an object the model does not look into: Monitor() *)
-| VArr (l : list val).         (* a NumPy integer / boolean array: its elements (1-D) or its rows (2-D, each a VArr);
-                                  element values are unbounded integers: int64 wrap-around is NOT modelled *)
+| VFloat (f : float).          (* binary64 *)
 
 Inductive res (A : Type) :=
 | Ret (a : A)                  (* normal result *)
@@ -38,25 +43,20 @@ Notation "x <~ r ;; k" := (rbind r (fun x => k)) (at level 61, r at next level, 
 
 (* ---- syntax -------------------------------------------------------------------------------------------------- *)
 Inductive binop := Add | Sub | Mul | FloorDiv | Mod | Pow.
-Inductive cmpop := CEq | CNe | CLt | CLe | CGt | CGe
-                 | CIn | CNotIn.   (* x in s / x not in s: substring of a str, element of a list *)
+Inductive cmpop := CEq | CNe | CLt | CLe | CGt | CGe | CIn | CNotIn.   (* in / not in: substring tests on str *)
 Inductive ty := TStr | TInt | TList.
 Inductive builtin1 :=
 | BLen | BInt | BStr | BList | BRange | BEnumerate
 | BRev                         (* x[::-1] *)
 | BMapStr | BMapInt            (* list(map(str, x)), list(map(int, x)); map objects are only ever consumed once *)
-| BIsNone                      (* x is None *)
-| BNpWhere                     (* numpy.where(b) of a 1-D boolean array: a 1-tuple holding the array of positions *)
-| BNpArgsort                   (* numpy.argsort(a) of a 1-D integer array with DISTINCT entries (ties are unspecified) *)
-| BNpSum                       (* numpy.sum(a) of a 1-D integer array *)
-| BNpArray                     (* numpy.array(x, dtype=int) of a list of ints / list of lists of ints *)
-| BNpZeros.                    (* numpy.zeros(shape=(n,), dtype=int) *)
+| BUpper                       (* x.upper() on ASCII *)
+| BIsNone.                     (* x is None *)
 Inductive builtin2 :=
 | BDivmod
 | BZfill                       (* a.zfill(b) *)
 | BJoin                        (* a.join(b) *)
 | BMapIndex                    (* map(a.index, b) *)
-| BIndexOf.                    (* a.index(b) on a list or a str *)
+| BCount.                      (* a.count(b) for a one-character b *)
 
 Inductive expr :=
 | EInt (z : Z) | EStr (s : list Z) | ENone | EBoolLit (b : bool) | EOpaque
@@ -73,13 +73,13 @@ Inductive expr :=
 | EList (l : list expr) | ETuple (l : list expr)
 | EComp (body : expr) (x : string) (iter : expr)   (* [body for x in iter] *)
 | ETypeIs (a : expr) (t : ty)                      (* type(a) == t *)
-| ECall (f : string) (args : list expr).           (* another function of the same module, positional *)
+| ECall (f : string) (args : list expr)            (* another function of the same module, positional *)
+| EReplace (a b c : expr).                         (* a.replace(b, c) for a one-character b *)
 
 Inductive target :=
 | TVar (x : string)
 | TTuple (xs : list string)                         (* a, b = ... *)
-| TIndex (x : string) (i : expr)                    (* x[i] = ... *)
-| TPair (x : string) (ys : list string).            (* x, (y1, y2, ..) = ...   (one nested tuple in second place) *)
+| TIndex (x : string) (i : expr).                   (* x[i] = ... *)
 
 Inductive stmt :=
 | SSkip
@@ -130,11 +130,17 @@ Fixpoint val_eqb (a b : val) : bool :=
   | _, _ => false
   end.
 
+Definition has_float (a b : val) : bool :=
+  match a, b with VFloat _, _ | _, VFloat _ => true | _, _ => false end.
+
+(* an int as a float: exact below 2^53, which is all the fragment is trusted for (Python compares an int with a float
+   exactly, without converting; below 2^53 the two coincide) *)
+Definition float_of_int (z : Z) : res float :=
+  if (0 <=? z) && (z <? 2 ^ 53) then Ret (fz z) else Stuck.
+
 (* ints and bools compare numerically in Python (True == 1); the fragment never needs it, so it is Stuck *)
 Definition mixes_bool (a b : val) : bool :=
   match a, b with VInt _, VBool _ | VBool _, VInt _ => true | _, _ => false end.
-
-Definition is_arr (v : val) : bool := match v with VArr _ => true | _ => false end.
 
 Definition truthy (v : val) : res bool :=
   match v with
@@ -144,36 +150,30 @@ Definition truthy (v : val) : res bool :=
   | VList l | VTuple l => Ret (negb (Nat.eqb (length l) 0))
   | VNone => Ret false
   | VOpaque => Stuck
-  | VArr _ => Stuck                                 (* the truth value of an array is ambiguous / an error *)
+  | VFloat _ => Stuck
   end.
 
 Definition lexleb (a b : list Z) : bool := negb (lexltb b a).
 
-Fixpoint map_res {A B} (f : A -> res B) (l : list A) : res (list B) :=
-  match l with
-  | [] => Ret []
-  | x :: t => y <~ f x ;; ys <~ map_res f t ;; Ret (y :: ys)
-  end.
+Definition as_float (v : val) : res float :=
+  match v with VFloat f => Ret f | VInt z => float_of_int z | _ => Stuck end.
 
-Fixpoint mem_val (x : val) (l : list val) : bool :=
-  match l with [] => false | y :: t => val_eqb x y || mem_val x t end.
-
-Definition cmp_scalar (o : cmpop) (a b : val) : res val :=
+Definition cmp_vals (o : cmpop) (a b : val) : res val :=
   if mixes_bool a b then Stuck else
-  if is_arr a || is_arr b then Stuck else
+  if has_float a b then
+    (* NaN compares false with everything, like PrimFloat.ltb / leb *)
+    x <~ as_float a ;; y <~ as_float b ;;
+    match o with
+    | CLt => Ret (VBool (PrimFloat.ltb x y)) | CLe => Ret (VBool (PrimFloat.leb x y))
+    | CGt => Ret (VBool (PrimFloat.ltb y x)) | CGe => Ret (VBool (PrimFloat.leb y x))
+    | _ => Stuck
+    end
+  else
   match o with
   | CEq => Ret (VBool (val_eqb a b))
   | CNe => Ret (VBool (negb (val_eqb a b)))
-  | CIn | CNotIn =>
-      let neg := match o with CNotIn => true | _ => false end in
-      match a, b with
-      | VStr x, VStr y => Ret (VBool (xorb neg (infixZ x y)))
-      | (VInt _ | VStr _), VList l =>
-          (* list membership compares with ==; only ints / strs against lists of ints / strs are modelled *)
-          if forallb (fun y => match y with VInt _ | VStr _ => true | _ => false end) l
-          then Ret (VBool (xorb neg (mem_val a l))) else Stuck
-      | _, _ => Stuck
-      end
+  | CIn => match a, b with VStr x, VStr y => Ret (VBool (infixZ x y)) | _, _ => Stuck end
+  | CNotIn => match a, b with VStr x, VStr y => Ret (VBool (negb (infixZ x y))) | _, _ => Stuck end
   | _ =>
     match a, b with
     | VInt x, VInt y =>
@@ -184,28 +184,17 @@ Definition cmp_scalar (o : cmpop) (a b : val) : res val :=
     end
   end.
 
-(* NumPy broadcasting of a comparison: array against an integer scalar, element by element *)
-Definition cmp_vals (o : cmpop) (a b : val) : res val :=
-  match a, b with
-  | VArr l, VInt _ =>
-      match o with
-      | CIn | CNotIn => Stuck
-      | _ => r <~ map_res (fun x => match x with VInt _ => cmp_scalar o x b | _ => Stuck end) l ;; Ret (VArr r)
-      end
-  | _, _ => cmp_scalar o a b
-  end.
-
 Fixpoint repeat_list {A} (n : nat) (l : list A) : list A :=
   match n with O => [] | S m => l ++ repeat_list m l end.
 
-Fixpoint zip_res {A} (f : val -> val -> res A) (l1 l2 : list val) : res (list A) :=
-  match l1, l2 with
-  | [], [] => Ret []
-  | x :: t1, y :: t2 => z <~ f x y ;; zs <~ zip_res f t1 t2 ;; Ret (z :: zs)
-  | _, _ => Exn ValueError                          (* shapes cannot be broadcast *)
-  end.
-
-Definition binop_scalar (o : binop) (a b : val) : res val :=
+Definition binop_vals (o : binop) (a b : val) : res val :=
+  if has_float a b then
+    x <~ as_float a ;; y <~ as_float b ;;
+    match o with
+    | Add => Ret (VFloat (x + y)%float) | Sub => Ret (VFloat (x - y)%float) | Mul => Ret (VFloat (x * y)%float)
+    | _ => Stuck
+    end
+  else
   match o, a, b with
   | Add, VInt x, VInt y => Ret (VInt (x + y))
   | Add, VStr x, VStr y => Ret (VStr (x ++ y))
@@ -219,20 +208,6 @@ Definition binop_scalar (o : binop) (a b : val) : res val :=
   | Mod, VInt x, VInt y => if y =? 0 then Exn OtherExn else Ret (VInt (x mod y))
   | Pow, VInt x, VInt y => if y <? 0 then Stuck (* a float *) else Ret (VInt (x ^ y))
   | _, _, _ => Stuck
-  end.
-
-(* NumPy: integer arrays of equal length combine element by element *)
-Definition binop_vals (o : binop) (a b : val) : res val :=
-  match a, b with
-  | VArr l1, VArr l2 =>
-      match o with
-      | Add | Sub | Mul =>
-          r <~ zip_res (fun x y => match x, y with VInt _, VInt _ => binop_scalar o x y | _, _ => Stuck end) l1 l2 ;;
-          Ret (VArr r)
-      | _ => Stuck
-      end
-  | VArr _, _ | _, VArr _ => Stuck
-  | _, _ => binop_scalar o a b
   end.
 
 (* str(n) for an integer: decimal digits as code points *)
@@ -254,16 +229,13 @@ Definition Z_of_str (s : list Z) : res Z :=
   | _ => if forallb is_digit s then Ret (fold_left (fun a c => a * 10 + (c - 48)) s 0) else Stuck
   end.
 
-Fixpoint nodupb (l : list Z) : bool :=
-  match l with [] => true | x :: t => negb (memZ x t) && nodupb t end.
-
 Definition chars (s : list Z) : list val := map (fun c => VStr [c]) s.
 
 (* the items a for loop / comprehension / list() / enumerate() sees *)
 Definition items (v : val) : res (list val) :=
   match v with
   | VStr s => Ret (chars s)
-  | VList l | VTuple l | VArr l => Ret l
+  | VList l | VTuple l => Ret l
   | _ => Exn TypeError
   end.
 
@@ -279,6 +251,12 @@ Definition range3 (a b c : Z) : res (list val) :=
 Fixpoint enumerate_from (i : Z) (l : list val) : list val :=
   match l with [] => [] | x :: t => VTuple [VInt i; x] :: enumerate_from (i + 1) t end.
 
+Fixpoint map_res {A B} (f : A -> res B) (l : list A) : res (list B) :=
+  match l with
+  | [] => Ret []
+  | x :: t => y <~ f x ;; ys <~ map_res f t ;; Ret (y :: ys)
+  end.
+
 Definition to_str (v : val) : res val :=
   match v with VInt z => Ret (VStr (str_of_Z z)) | VStr s => Ret (VStr s) | _ => Stuck end.
 Definition to_int (v : val) : res val :=
@@ -293,7 +271,7 @@ Definition builtin1_val (f : builtin1) (a : val) : res val :=
   match f with
   | BLen => match a with
             | VStr s => Ret (VInt (Z.of_nat (length s)))
-            | VList l | VTuple l | VArr l => Ret (VInt (Z.of_nat (length l)))
+            | VList l | VTuple l => Ret (VInt (Z.of_nat (length l)))
             | _ => Exn TypeError
             end
   | BInt => to_int a
@@ -309,37 +287,13 @@ Definition builtin1_val (f : builtin1) (a : val) : res val :=
             end
   | BMapStr => l <~ items a ;; r <~ map_res to_str l ;; Ret (VList r)
   | BMapInt => l <~ items a ;; r <~ map_res to_int l ;; Ret (VList r)
+  | BUpper => match a with
+              | VStr s => if forallb (fun c => c <? 128) s
+                          then Ret (VStr (map (fun c => if (97 <=? c) && (c <=? 122) then c - 32 else c) s))
+                          else Stuck                      (* non-ASCII case mapping is not modelled *)
+              | _ => Stuck
+              end
   | BIsNone => match a with VNone => Ret (VBool true) | VOpaque => Stuck | _ => Ret (VBool false) end
-  | BNpWhere =>
-      match a with
-      | VArr l =>
-          bs <~ map_res (fun x => match x with VBool b => Ret b | _ => Stuck end) l ;;
-          Ret (VTuple [VArr (map VInt (used_indices (map (fun b : bool => if b then 0 else -1) bs)))])
-      | _ => Stuck
-      end
-  | BNpArgsort =>
-      match a with
-      | VArr l =>
-          ks <~ map_res (fun x => match x with VInt z => Ret z | _ => Stuck end) l ;;
-          if nodupb ks then Ret (VArr (map VInt (argsort ks))) else Stuck
-      | _ => Stuck
-      end
-  | BNpSum =>
-      match a with
-      | VArr l => ks <~ map_res (fun x => match x with VInt z => Ret z | _ => Stuck end) l ;; Ret (VInt (sumZ ks))
-      | _ => Stuck
-      end
-  | BNpArray =>
-      match a with
-      | VList l =>
-          if forallb (fun x => match x with VInt _ => true | _ => false end) l then Ret (VArr l)
-          else r <~ map_res (fun x => match x with
-                                      | VList row => if forallb (fun y => match y with VInt _ => true | _ => false end) row
-                                                     then Ret (VArr row) else Stuck
-                                      | _ => Stuck end) l ;; Ret (VArr r)
-      | _ => Stuck
-      end
-  | BNpZeros => match a with VInt n => Ret (VArr (repeat (VInt 0) (Z.to_nat n))) | _ => Stuck end
   end.
 
 (* s.index(c) for a one-character c *)
@@ -357,9 +311,6 @@ Fixpoint join_strs (sep : list Z) (l : list val) : res (list Z) :=
   | _ => Exn TypeError
   end.
 
-Fixpoint index_of_val (x : val) (l : list val) (i : Z) : option Z :=
-  match l with [] => None | y :: t => if val_eqb x y then Some i else index_of_val x t (i + 1) end.
-
 Definition builtin2_val (f : builtin2) (a b : val) : res val :=
   match f, a, b with
   | BDivmod, VInt x, VInt y => if y =? 0 then Exn OtherExn else Ret (VTuple [VInt (x / y); VInt (x mod y)])
@@ -371,11 +322,14 @@ Definition builtin2_val (f : builtin2) (a b : val) : res val :=
       end
   | BJoin, VStr sep, _ => l <~ items b ;; r <~ join_strs sep l ;; Ret (VStr r)
   | BMapIndex, VStr s, _ => l <~ items b ;; r <~ map_res (str_index s) l ;; Ret (VList r)
-  | BIndexOf, VStr s, _ => str_index s b
-  | BIndexOf, VList l, (VInt _ | VStr _) =>
-      if forallb (fun y => match y with VInt _ | VStr _ => true | _ => false end) l
-      then match index_of_val b l 0 with Some i => Ret (VInt i) | None => Exn ValueError end
-      else Stuck
+  | BCount, VStr s, VStr [c] => Ret (VInt (countZ c s))
+  | _, _, _ => Stuck
+  end.
+
+(* a.replace(b, c) for a one-character b: every occurrence, left to right *)
+Definition replace_val (a b c : val) : res val :=
+  match a, b, c with
+  | VStr s, VStr [x], VStr y => Ret (VStr (flat_map (fun ch => if ch =? x then y else [ch]) s))
   | _, _, _ => Stuck
   end.
 
@@ -384,23 +338,8 @@ Definition index_val (a i : val) : res val :=
   | VInt j =>
       match a with
       | VStr s => match py_get s j with Ok c => Ret (VStr [c]) | _ => Exn IndexError end
-      | VList l | VTuple l | VArr l => match py_get l j with Ok v => Ret v | _ => Exn IndexError end
+      | VList l | VTuple l => match py_get l j with Ok v => Ret v | _ => Exn IndexError end
       | _ => Exn TypeError
-      end
-  | VTuple [VInt r; VArr cols] =>
-      (* a[r, cols] on a 2-D array: row r, then the entries at the positions cols (fancy indexing) *)
-      match a with
-      | VArr rows =>
-          match py_get rows r with
-          | Ok (VArr row) =>
-              x <~ map_res (fun c => match c with
-                                     | VInt j => match py_get row j with Ok v => Ret v | _ => Exn IndexError end
-                                     | _ => Stuck end) cols ;;
-              Ret (VArr x)
-          | Ok _ => Stuck
-          | _ => Exn IndexError
-          end
-      | _ => Stuck
       end
   | _ => Stuck
   end.
@@ -413,7 +352,6 @@ Definition slice_val (a : val) (lo hi : option val) : res val :=
   | VStr s => l <~ opt_int lo 0 ;; h <~ opt_int hi (Z.of_nat (length s)) ;; Ret (VStr (py_slice s l h))
   | VList s => l <~ opt_int lo 0 ;; h <~ opt_int hi (Z.of_nat (length s)) ;; Ret (VList (py_slice s l h))
   | VTuple s => l <~ opt_int lo 0 ;; h <~ opt_int hi (Z.of_nat (length s)) ;; Ret (VTuple (py_slice s l h))
-  | VArr s => l <~ opt_int lo 0 ;; h <~ opt_int hi (Z.of_nat (length s)) ;; Ret (VArr (py_slice s l h))
   | _ => Exn TypeError
   end.
 
@@ -425,15 +363,6 @@ Definition store_val (a i v : val) : res val :=
       let j' := if j <? 0 then j + n else j in
       if (j' <? 0) || (n <=? j') then Exn IndexError else Ret (VList (set_nth l (Z.to_nat j') v))
   | VList _, _ => Stuck
-  | VArr l, VInt j =>
-      (* an element of a 1-D integer array *)
-      let n := Z.of_nat (length l) in
-      let j' := if j <? 0 then j + n else j in
-      match v with
-      | VInt _ => if (j' <? 0) || (n <=? j') then Exn IndexError else Ret (VArr (set_nth l (Z.to_nat j') v))
-      | _ => Stuck
-      end
-  | VArr _, _ => Stuck
   | _, _ => Exn TypeError
   end.
 
@@ -449,7 +378,7 @@ Definition type_is (v : val) (t : ty) : res val :=
   match v, t with
   | VStr _, TStr | VInt _, TInt | VList _, TList => Ret (VBool true)
   | VOpaque, _ => Stuck
-  | VArr _, _ => Stuck
+  | VFloat _, _ => Stuck
   | _, _ => Ret (VBool false)
   end.
 
@@ -500,6 +429,7 @@ Section Interp.
         vs <~ (fix go (l : list expr) : res (list val) :=
                  match l with [] => Ret [] | e' :: t => v <~ eval en e' ;; vs <~ go t ;; Ret (v :: vs) end) l ;;
         callenv f vs
+    | EReplace a b c => x <~ eval en a ;; y <~ eval en b ;; z <~ eval en c ;; replace_val x y z
     end.
 
   (* ---- statements ---------------------------------------------------------------------------------------------- *)
@@ -529,13 +459,6 @@ Section Interp.
     | TIndex x i =>
         lift (eval en i) (fun j => lift (lookup x en) (fun a => lift (store_val a j v) (fun a' =>
           ONormal (update x a' en))))
-    | TPair x ys =>
-        lift (items v) (fun vs =>
-          match vs with
-          | [v1; v2] => lift (items v2) (fun ws =>
-                          match bind_tuple ys ws (update x v1 en) with Some en' => ONormal en' | None => OExn ValueError end)
-          | _ => OExn ValueError
-          end)
     end.
 
   Definition seq (o : outcome) (k : env -> outcome) : outcome :=
@@ -554,7 +477,7 @@ Section Interp.
             lift (lookup x en) (fun a => lift (eval en i) (fun j => lift (index_val a j) (fun old =>
             lift (eval en e) (fun b => lift (binop_vals o old b) (fun v => lift (store_val a j v) (fun a' =>
               ONormal (update x a' en)))))))
-        | TTuple _ | TPair _ _ => OStuck
+        | TTuple _ => OStuck
         end
     | SExpr e => lift (eval en e) (fun _ => ONormal en)
     | SAppend x e =>
@@ -597,6 +520,19 @@ Section Interp.
         match exec fuel (body f) en with
         | ONormal _ => Ret VNone
         | OReturn v => Ret v
+        | OExn e => Exn e
+        | OFuel => Fuel
+        | OStuck => Stuck
+        end
+    end.
+  (* a procedure run for its effect on the variables (a constructor: the variables "self.x" are the object's fields) *)
+  Definition run_proc (fuel : nat) (f : fundef) (args : list val) : res env :=
+    match bind_params (params f) args with
+    | None => Stuck
+    | Some en =>
+        match exec fuel (body f) en with
+        | ONormal en' => Ret en'
+        | OReturn _ => Stuck
         | OExn e => Exn e
         | OFuel => Fuel
         | OStuck => Stuck
